@@ -27,7 +27,7 @@ def species_mass(name):
 
 
 def gen_network(rng: random.Random):
-    names = sorted(n for n in O.POOL if not n.startswith("#") or True)
+    names = sorted(n for n in O.POOL if n not in O.NOT_DRAWN)
     for _ in range(100):
         pool = rng.sample(names, rng.randint(5, 12))
         if "H" not in pool:
